@@ -820,6 +820,7 @@ fn execute_faulted(scn: &RegScenario, mask: Mask) -> Result<RegResult, Violation
     let mut key_to_id: BTreeMap<Tx, u32> = BTreeMap::new();
     let mut id_to_key: BTreeMap<u32, (Tx, TyRef)> = BTreeMap::new();
     let mut fired_nodes: Vec<u8> = Vec::new();
+    let mut walked: BTreeMap<TypeId, u32> = BTreeMap::new();
     for (e, d) in scn.owner.iter().enumerate() {
         probe("events.delivery");
         let fired_before = universe::unwinds_fired();
@@ -929,6 +930,54 @@ fn execute_faulted(scn: &RegScenario, mask: Mask) -> Result<RegResult, Violation
                 }
             }
         }
+        // C02 under faults: a type that cannot reach an unwound node, and
+        // everything below it, is registered as if nothing had happened - its
+        // id resolves to a faithful image of type_info(), to a fixed point
+        if mask.has("C02") {
+            if let (Some(ids), Req::Register(_) | Req::RegisterMany(_)) = (&outcome_ids, &d.req) {
+                let refs = d.req.refs();
+                if refs.len() == ids.len() {
+                    let mut queue: Vec<(MetaType, u32)> = refs
+                        .iter()
+                        .zip(ids)
+                        .filter(|(t, _)| !reaches_fired(&scn.nodes, **t, &fired_nodes))
+                        .map(|(t, id)| (meta(*t), *id))
+                        .collect();
+                    while let Some((m, id)) = queue.pop() {
+                        let tid = m.type_id();
+                        if let Some(old) = walked.get(&tid) {
+                            if *old != id {
+                                fail(mask, "C02", "fault.relation_not_a_function", || {
+                                    format!("event {}: one type identity resolved to id {} and to id {}", e, old, id)
+                                })?;
+                            }
+                            continue;
+                        }
+                        walked.insert(tid, id);
+                        match now.get(&id) {
+                            None => {
+                                fail(mask, "C02", "fault.id_unresolvable", || {
+                                    format!(
+                                        "event {}: id {} was handed out for a type that cannot reach an unwound node, but has no definition (unwound: {:?})",
+                                        e, id, fired_nodes
+                                    )
+                                })?;
+                            }
+                            Some(ty) => {
+                                let mut c = Cmp::default();
+                                cmp_type(&m.type_info(), ty, &mut c);
+                                if let Err((clause, detail)) = c.result() {
+                                    fail(mask, "C02", &format!("fault.{}", clause), || {
+                                        format!("event {}: id {}: {}", e, id, detail)
+                                    })?;
+                                }
+                                queue.extend(c.pairs);
+                            }
+                        }
+                    }
+                }
+            }
+        }
         for (id, old) in &seen {
             match now.get(id) {
                 None => {
@@ -997,7 +1046,7 @@ fn execute_faulted(scn: &RegScenario, mask: Mask) -> Result<RegResult, Violation
 }
 
 fn execute_inner(scn: &RegScenario, mask: Mask) -> Result<RegResult, Violation> {
-    if !scn.unwind_nodes.is_empty() && (mask.has("C11") || mask.has("C05")) {
+    if !scn.unwind_nodes.is_empty() && (mask.has("C11") || mask.has("C05") || mask.has("C02")) {
         return execute_faulted(scn, mask);
     }
     let mut res = RegResult {
